@@ -606,10 +606,11 @@ def _patched_actual_solve(self, lp, **kw):
 
 def install_backend(backend):
     coin_api.COIN_CMD.actualSolve = _patched_actual_solve
+    previous = _ACTIVE['backend']
     _ACTIVE['backend'] = backend
 
     def undo():
-        _ACTIVE['backend'] = None
+        _ACTIVE['backend'] = previous
     return undo
 
 
